@@ -15,6 +15,7 @@ import (
 	"go/token"
 	"os"
 	"path/filepath"
+	"reflect"
 	"regexp"
 	"strings"
 )
@@ -83,8 +84,16 @@ var ws = regexp.MustCompile(`\s+`)
 func Norm(s string) string { return strings.TrimSpace(ws.ReplaceAllString(s, " ")) }
 
 // Src prints a node and normalises white space.
-func (f *File) Src(n ast.Node) string {
+func isNilNode(n ast.Node) bool {
 	if n == nil {
+		return true
+	}
+	v := reflect.ValueOf(n)
+	return v.Kind() == reflect.Ptr && v.IsNil()
+}
+
+func (f *File) Src(n ast.Node) string {
+	if isNilNode(n) {
 		return ""
 	}
 	var b bytes.Buffer
@@ -199,7 +208,7 @@ func WriteIfChanged(path, content string) error {
 // appearance, `var x = e` written as `x := e`, and white space collapsed. Two bodies that differ only in the names of
 // locals have the same canonical text, so exact-shape facts do not alarm on a rename.
 func (f *File) Canon(n ast.Node) string {
-	if n == nil {
+	if isNilNode(n) { // also a typed nil, e.g. the *ast.FuncDecl of a function that no longer exists
 		return ""
 	}
 	locals := map[string]bool{}
